@@ -127,6 +127,25 @@ func (g *Gen) Narrow(t Ty) Ty {
 	case "tspan":
 		lo, hi := g.shrink(t.Lo, t.Hi)
 		return Tspan(lo, hi)
+	case "tstamp": // a pool instant inside the range as the new lower or upper bound
+		le := func(s1, n1, s2, n2 int64) bool { return s1 < s2 || s1 == s2 && n1 <= n2 }
+		var in [][2]int64
+		for _, z := range tsvPool {
+			if le(t.Lo, t.NLo, z[0], z[1]) && le(z[0], z[1], t.Hi, t.NHi) {
+				in = append(in, z)
+			}
+		}
+		if len(in) == 0 {
+			return t
+		}
+		z := in[g.n(len(in))]
+		switch g.n(3) {
+		case 0:
+			return Tstamp(z[0], z[1], t.Hi, t.NHi)
+		case 1:
+			return Tstamp(t.Lo, t.NLo, z[0], z[1])
+		}
+		return Tstamp(z[0], z[1], z[0], z[1])
 	case "flt":
 		if t.FLo < t.FHi {
 			var cands []float64
@@ -390,6 +409,14 @@ func (g *Gen) Widen(t Ty) Ty {
 		}
 		lo, hi := g.grow(t.Lo, t.Hi, MinI)
 		return Tspan(lo, hi)
+	case "tstamp":
+		if g.p(25) {
+			return g.pickTy([]Ty{Atom("scalar"), Atom("rdata"), TstampAll()})
+		}
+		if w, ok := g.widenOwnRange(t); ok {
+			return w
+		}
+		return TstampAll()
 	case "flt":
 		if g.p(20) {
 			return g.pickTy([]Ty{Atom("numeric"), Atom("sdata"), Atom("scalar")})
@@ -610,7 +637,7 @@ func (g *Gen) WidenRange(t Ty) (Ty, bool) {
 
 func hasRange(t Ty) bool {
 	switch t.K {
-	case "int", "flt", "tspan", "strsz", "coll", "arr", "hash":
+	case "int", "flt", "tspan", "tstamp", "strsz", "coll", "arr", "hash":
 		return true
 	case "tup":
 		return t.HasSize
@@ -655,6 +682,30 @@ func (g *Gen) widenOwnRange(t Ty) (Ty, bool) {
 	switch t.K {
 	case "int", "tspan":
 		r.Lo, r.Hi = g.grow(t.Lo, t.Hi, MinI)
+	case "tstamp": // the next pool instant below the lower bound / above the upper bound, or the default's bound
+		le := func(s1, n1, s2, n2 int64) bool { return s1 < s2 || s1 == s2 && n1 <= n2 }
+		if g.p(50) {
+			r.Lo, r.NLo = 0, 0
+			for i := len(tsvPool) - 1; i >= 0; i-- {
+				z := tsvPool[i]
+				if le(z[0], z[1], t.Lo, t.NLo) && !(z[0] == t.Lo && z[1] == t.NLo) {
+					r.Lo, r.NLo = z[0], z[1]
+					break
+				}
+			}
+			if t.Lo < 0 {
+				r.Lo, r.NLo = t.Lo, t.NLo
+			}
+		} else {
+			r.Hi, r.NHi = TsMaxSec, TsMaxNs
+			for _, z := range tsvPool {
+				if le(t.Hi, t.NHi, z[0], z[1]) && !(z[0] == t.Hi && z[1] == t.NHi) {
+					r.Hi, r.NHi = z[0], z[1]
+					break
+				}
+			}
+		}
+		return r, !TyEq(r, t)
 	case "flt":
 		if g.p(50) && t.FLo > -math.MaxFloat64 {
 			r.FLo = t.FLo - 1
